@@ -1,156 +1,39 @@
+use super::c07_dup::*;
 use super::col::*;
 use super::util::*;
 use super::vlock::*;
+use crate::collection::verif_peek as cp;
 use crate::collection::*;
 use crate::lockable::RawLock;
 use crate::ThreadKey;
 
 vharness! {
 #[kani::unwind(6)]
-fn probe_dbg_ref_base() {
-	let u = <[M; 3] as Make<3>>::make(kani::any());
-	let c = RefLockCollection::new(&u);
-	let l = c.leaves();
-	let st = l.states();
-	l.set_any_others();
-	let vals = l.peek_vals();
-	let key = ThreadKey::get().unwrap();
-	let mut g = c.k_lock(key);
-	let nv: u8 = kani::any();
-	let i: usize = kani::any();
-	kani::assume(i < 3);
-	<[M; 3] as Uni<3>>::guard_write(&mut g, i, nv);
-	let key = <RefLockCollection<[M; 3]> as Kind<[M; 3]>>::k_unlock(g);
-	let pv = l.peek_vals();
-	assert!(pv[i] == nv, "C02_c_i");
-	assert!(i == 0 || pv[0] == vals[0], "C02_c0");
-	assert!(i == 1 || pv[1] == vals[1], "C02_c1");
-	assert!(i == 2 || pv[2] == vals[2], "C02_c2");
-	drop(key);
-	kani::cover!(true, "end");
+fn probe_nested_ref_conc() {
+	let u = <[M; 3] as Make<3>>::make([0; 3]);
+	let (a, b, c) = (0, 1, idx::<3>());
+	let inner_members = [&u[a], &u[b]];
+	let inner = RefLockCollection::try_new(&inner_members);
+	let inner = inner.unwrap();
+	let dup = c == a || c == b;
+	let r = BoxedLockCollection::try_new((&inner, &u[c]));
+	assert!(r.is_none() == dup, "C07_boxed_try_new_sees_locks_inside_a_nested_ref_collection");
+	kani::cover!(dup, "dup");
+	kani::cover!(!dup, "nodup");
 }}
 
 vharness! {
 #[kani::unwind(6)]
-fn probe_dbg_ref_noothers() {
-	let u = <[M; 3] as Make<3>>::make(kani::any());
-	let c = RefLockCollection::new(&u);
-	let l = c.leaves();
-	let st = l.states();
-	
-	let vals = l.peek_vals();
-	let key = ThreadKey::get().unwrap();
-	let mut g = c.k_lock(key);
-	let nv: u8 = kani::any();
-	let i: usize = kani::any();
-	kani::assume(i < 3);
-	<[M; 3] as Uni<3>>::guard_write(&mut g, i, nv);
-	let key = <RefLockCollection<[M; 3]> as Kind<[M; 3]>>::k_unlock(g);
-	let pv = l.peek_vals();
-	assert!(pv[i] == nv, "C02_c_i");
-	assert!(i == 0 || pv[0] == vals[0], "C02_c0");
-	assert!(i == 1 || pv[1] == vals[1], "C02_c1");
-	assert!(i == 2 || pv[2] == vals[2], "C02_c2");
-	drop(key);
-	kani::cover!(true, "end");
-}}
-
-vharness! {
-#[kani::unwind(6)]
-fn probe_dbg_ref_conc_i() {
-	let u = <[M; 3] as Make<3>>::make(kani::any());
-	let c = RefLockCollection::new(&u);
-	let l = c.leaves();
-	let st = l.states();
-	l.set_any_others();
-	let vals = l.peek_vals();
-	let key = ThreadKey::get().unwrap();
-	let mut g = c.k_lock(key);
-	let nv: u8 = kani::any();
-	let i: usize = 2;
-	kani::assume(i < 3);
-	<[M; 3] as Uni<3>>::guard_write(&mut g, i, nv);
-	let key = <RefLockCollection<[M; 3]> as Kind<[M; 3]>>::k_unlock(g);
-	let pv = l.peek_vals();
-	assert!(pv[i] == nv, "C02_c_i");
-	assert!(i == 0 || pv[0] == vals[0], "C02_c0");
-	assert!(i == 1 || pv[1] == vals[1], "C02_c1");
-	assert!(i == 2 || pv[2] == vals[2], "C02_c2");
-	drop(key);
-	kani::cover!(true, "end");
-}}
-
-vharness! {
-#[kani::unwind(6)]
-fn probe_dbg_ref_directwrite() {
-	let u = <[M; 3] as Make<3>>::make(kani::any());
-	let c = RefLockCollection::new(&u);
-	let l = c.leaves();
-	let st = l.states();
-	l.set_any_others();
-	let vals = l.peek_vals();
-	let key = ThreadKey::get().unwrap();
-	let mut g = c.k_lock(key);
-	let nv: u8 = kani::any();
-	let i: usize = kani::any();
-	kani::assume(i < 3);
-	*g[i] = nv;
-	let key = <RefLockCollection<[M; 3]> as Kind<[M; 3]>>::k_unlock(g);
-	let pv = l.peek_vals();
-	assert!(pv[i] == nv, "C02_c_i");
-	assert!(i == 0 || pv[0] == vals[0], "C02_c0");
-	assert!(i == 1 || pv[1] == vals[1], "C02_c1");
-	assert!(i == 2 || pv[2] == vals[2], "C02_c2");
-	drop(key);
-	kani::cover!(true, "end");
-}}
-
-vharness! {
-#[kani::unwind(6)]
-fn probe_dbg_boxed_base() {
-	let u = <[M; 3] as Make<3>>::make(kani::any());
-	let c = BoxedLockCollection::new(u);
-	let l = c.leaves();
-	let st = l.states();
-	l.set_any_others();
-	let vals = l.peek_vals();
-	let key = ThreadKey::get().unwrap();
-	let mut g = c.k_lock(key);
-	let nv: u8 = kani::any();
-	let i: usize = kani::any();
-	kani::assume(i < 3);
-	<[M; 3] as Uni<3>>::guard_write(&mut g, i, nv);
-	let key = <BoxedLockCollection<[M; 3]> as Kind<[M; 3]>>::k_unlock(g);
-	let pv = l.peek_vals();
-	assert!(pv[i] == nv, "C02_c_i");
-	assert!(i == 0 || pv[0] == vals[0], "C02_c0");
-	assert!(i == 1 || pv[1] == vals[1], "C02_c1");
-	assert!(i == 2 || pv[2] == vals[2], "C02_c2");
-	drop(key);
-	kani::cover!(true, "end");
-}}
-
-vharness! {
-#[kani::unwind(6)]
-fn probe_dbg_owned_base() {
-	let u = <[M; 3] as Make<3>>::make(kani::any());
-	let c = OwnedLockCollection::new(u);
-	let l = c.leaves();
-	let st = l.states();
-	l.set_any_others();
-	let vals = l.peek_vals();
-	let key = ThreadKey::get().unwrap();
-	let mut g = c.k_lock(key);
-	let nv: u8 = kani::any();
-	let i: usize = kani::any();
-	kani::assume(i < 3);
-	<[M; 3] as Uni<3>>::guard_write(&mut g, i, nv);
-	let key = <OwnedLockCollection<[M; 3]> as Kind<[M; 3]>>::k_unlock(g);
-	let pv = l.peek_vals();
-	assert!(pv[i] == nv, "C02_c_i");
-	assert!(i == 0 || pv[0] == vals[0], "C02_c0");
-	assert!(i == 1 || pv[1] == vals[1], "C02_c1");
-	assert!(i == 2 || pv[2] == vals[2], "C02_c2");
-	drop(key);
-	kani::cover!(true, "end");
+fn probe_nested_ref_inner_sym() {
+	let u = <[M; 3] as Make<3>>::make([0; 3]);
+	let (a, b, c) = (idx::<3>(), idx::<3>(), 2);
+	kani::assume(a != b);
+	let inner_members = [&u[a], &u[b]];
+	let inner = RefLockCollection::try_new(&inner_members);
+	let inner = inner.unwrap();
+	let dup = c == a || c == b;
+	let r = RefLockCollection::try_new(&inner);
+	assert!(r.is_some(), "C07_x");
+	kani::cover!(dup, "dup");
+	kani::cover!(!dup, "nodup");
 }}
